@@ -46,7 +46,7 @@ use std::{
     convert::TryInto,
     ops::{Deref, DerefMut},
     sync::{
-        atomic::{AtomicIsize, AtomicUsize, Ordering},
+        atomic::Ordering,
         Arc, Weak,
     },
     time::Duration,
@@ -57,7 +57,7 @@ use tokio::sync::{Semaphore, TryAcquireError};
 
 // verification builds: the lock and the semaphores are the instrumented ones
 #[cfg(deadpool_verif)]
-use crate::verif::{Mutex, Semaphore};
+use crate::verif::{AtomicIsize, AtomicUsize, Mutex, Semaphore};
 #[cfg(deadpool_verif)]
 use tokio::sync::TryAcquireError;
 
@@ -426,8 +426,8 @@ impl<T> Pool<T> {
             size_permits: self.inner.size_semaphore.raw().available_permits(),
             closed: self.inner.semaphore.raw().is_closed(),
             size_closed: self.inner.size_semaphore.raw().is_closed(),
-            size: self.inner.size.load(Ordering::Relaxed),
-            available: self.inner.available.load(Ordering::Relaxed),
+            size: self.inner.size.raw_load(),
+            available: self.inner.available.raw_load(),
             queue_len,
             max_size: self.inner.config.max_size,
         }
